@@ -228,14 +228,29 @@ func (s *Script) evalWithRoot(stack, data, root any) (any, Expr) {
 		data = da
 	default:
 		rv := reflect.ValueOf(td)
-		if rv.Kind() != reflect.Slice && rv.Kind() != reflect.Array {
-			return stack, locs
+		if rv.Kind() == reflect.Ptr {
+			rv = rv.Elem()
 		}
-		dlen = rv.Len()
-		da := make([]any, 0, dlen)
-		for i := 0; i < dlen; i++ {
-			da = append(da, rv.Index(i).Interface())
-			locKeys = append(locKeys, Nth(i))
+		var da []any
+		switch rv.Kind() {
+		case reflect.Slice, reflect.Array:
+			dlen = rv.Len()
+			da = make([]any, 0, dlen)
+			for i := 0; i < dlen; i++ {
+				da = append(da, rv.Index(i).Interface())
+				locKeys = append(locKeys, Nth(i))
+			}
+		case reflect.Struct:
+			rt := rv.Type()
+			for i := 0; i < rv.NumField(); i++ {
+				if fv := rv.Field(i); fv.CanInterface() {
+					da = append(da, fv.Interface())
+					locKeys = append(locKeys, Child(rt.Field(i).Name))
+				}
+			}
+			dlen = len(da)
+		default:
+			return stack, locs
 		}
 		data = da
 	}
